@@ -596,6 +596,11 @@ func (e *Enc) encodeTop(fn *ssa.Function, spec *FuncSpec, caseIdx int) {
 				src = "ensures (part) " + g.Desc
 			}
 			o := e.oblige(name, "post", fs.reach, g.Term, fmt.Sprintf("%s:%d", filepath.Base(spec.File), c.Line), src, c.Tags)
+			if len(fr.rets) > 1 && len(fr.rets) <= 8 {
+				for _, rt := range fr.rets {
+					o.RetCases = append(o.RetCases, rt.reach)
+				}
+			}
 			if len(parts) > 1 {
 				o.Group = fmt.Sprintf("%s#post:%d", strings.Replace(key, "#case", "@case", 1), i+1)
 			}
@@ -750,6 +755,7 @@ func (e *Enc) discharge0(o *Obl, fkey string, opts *VerifyOpts) *OblResult {
 		}
 		return r
 	}
+	skipRetry := false
 	run := func(tag string, extra []string, relaxed bool, agree int) SolveResult {
 		f := file
 		if tag != "" {
@@ -767,7 +773,7 @@ func (e *Enc) discharge0(o *Obl, fkey string, opts *VerifyOpts) *OblResult {
 		if sr.Status == "sat" && len(e.opaqueFun) > 0 {
 			sr.Status = "unknown" // a model of the weakened query proves nothing: ask again with the definitions
 		}
-		if sr.Status == "unknown" && !relaxed && !opts.NoRetry {
+		if sr.Status == "unknown" && !relaxed && !opts.NoRetry && !skipRetry {
 			writeFile(f, e.buildQueryX(o, extra, false, relaxed))
 			rt := opts.TimeoutS * 3
 			if rt < 60 {
@@ -829,7 +835,41 @@ func (e *Enc) discharge0(o *Obl, fkey string, opts *VerifyOpts) *OblResult {
 		}
 		return r
 	}
-	sr := run("", o.Extra, false, opts.Agree)
+	var sr SolveResult
+	if len(o.RetCases) > 1 && !opts.NoRetry {
+		// a postcondition over the merged exit state of several return sites: one short attempt on the whole, then once
+		// per return site (the sites' path conditions are mutually exclusive and together make up the guard, so the
+		// conjunction of the cases is the obligation); only if that does not settle it, the full portfolio on the whole
+		skipRetry = true
+		sr = run("", o.Extra, false, opts.Agree)
+		skipRetry = false
+		if sr.Status == "unknown" {
+			all := true
+			var ms int64
+			backs := map[string]bool{}
+			for k, c := range o.RetCases {
+				cs := run(fmt.Sprintf("ret%d", k+1), append(append([]string{}, o.Extra...), c), false, opts.Agree)
+				ms += cs.Millis
+				if cs.Status != "unsat" {
+					all = false
+					break
+				}
+				backs[cs.Backend] = true
+			}
+			if all {
+				var bl []string
+				for b := range backs {
+					bl = append(bl, b)
+				}
+				sort.Strings(bl)
+				sr = SolveResult{Status: "unsat", Backend: "by-return-site(" + strings.Join(bl, ",") + ")", Millis: sr.Millis + ms}
+			} else {
+				sr = run("", o.Extra, false, opts.Agree)
+			}
+		}
+	} else {
+		sr = run("", o.Extra, false, opts.Agree)
+	}
 	r.Solve = sr
 	switch sr.Status {
 	case "unsat":
